@@ -6,8 +6,9 @@ import json, os, re, shutil, sys
 
 pid, m = sys.argv[1], sys.argv[2]
 det_logs = sys.argv[3:]
-src = f"/tmp/seed-{pid}/{m}"
-dst = f"/verif/seeded/{pid}-{m}"
+ROUND2 = os.environ.get("ROUND") == "2"   # second round of sub-agents (told which changes already existed)
+src = f"/tmp/seed2-{pid}/{m}" if ROUND2 else f"/tmp/seed-{pid}/{m}"
+dst = f"/verif/seeded/{pid}-r2{m}" if ROUND2 else f"/verif/seeded/{pid}-{m}"
 os.makedirs(dst, exist_ok=True)
 shutil.copy(f"{src}/patch.diff", f"{dst}/patch.diff")
 if os.path.isdir(f"{dst}/demo"):
@@ -24,7 +25,7 @@ if mm:
     needs = re.sub(r"\n{2,}", "\n", mm.group(2).strip())[:1500]
 files = re.findall(r"^diff --git a/(\S+)", open(f"{src}/patch.diff").read(), re.M)
 ver = {}
-vlog = f"/tmp/seedverify/{pid}-{m}.log"
+vlog = f"/tmp/seedverify/R2-{pid}-{m}.log" if ROUND2 else f"/tmp/seedverify/{pid}-{m}.log"
 if os.path.exists(vlog):
     t = open(vlog).read()
     parts = re.split(r"^=== (SUITE WITH MUTATION|DEMO WITH MUTATION|DEMO WITHOUT MUTATION|DONE)$", t, flags=re.M)
@@ -44,23 +45,24 @@ for dl in det_logs:
                 l = re.sub(r"/tmp/st/slot1/verif/", "", l.strip())
                 det.append(l[:260])
 caught = any("VIOLATION" in l for l in det)
+caught_by = sorted({re.search(r"property=(C\d+)", l).group(1) + " quick" for l in det if "VIOLATION" in l})
 old = {}
 if os.path.exists(f"{dst}/meta.json"):
     old = json.load(open(f"{dst}/meta.json"))
 meta = {
-    "id": f"{pid}-{m}",
+    "id": os.path.basename(dst),
     "breaks_property": pid,
     "title": title or old.get("title", ""),
     "files_changed": files,
     "needs_to_manifest": needs or old.get("needs_to_manifest", ""),
-    "origin": "sub-agent given only the property text and a scratch worktree of /repo",
+    "origin": "sub-agent given only the property text and a scratch worktree of /repo" + (" (second round: also told the titles of the first-round changes, to avoid repeating them)" if ROUND2 else ""),
     "verified_by_me": ver or old.get("verified_by_me", {}),
     "what_i_ran": [
         "/tmp/verify_seed.sh (scratch worktree of /repo at HEAD + patch): cargo nextest run --workspace --no-fail-fast --offline; the demo with the change; the demo without it",
-        f"tools/seedtest.sh seeded/{pid}-{m}/patch.diff quick {pid}  (scratch worktree + scratch copy of /verif; /repo untouched)",
+        f"tools/seedtest.sh seeded/{os.path.basename(dst)}/patch.diff quick {pid}  (scratch worktree + scratch copy of /verif; /repo untouched)",
     ],
     "detection": det[:14],
-    "caught_by": ([f"{pid} quick"] if caught else []),
+    "caught_by": caught_by,
     "notes": old.get("notes", ""),
 }
 json.dump(meta, open(f"{dst}/meta.json", "w"), indent=1, ensure_ascii=False)
